@@ -131,6 +131,17 @@ def c18_2(ctx):
         ctx.check(bool(names & {"Exception", "BaseException"}), "cache-swallows-every-exception", ctx.where(f, e.node),
                   "parseable_str.cache converts only %s to `not parseable`; the decoders it wraps (base58, bech32 ...) fail with IndexError / KeyError / TypeError on malformed text, so anything narrower than Exception lets parsing raise" % sorted(names),
                   sample={"handlers": sorted(names)})
+        # ... and no handler in front of the catch-all hands a kind of exception back (`except TypeError: raise`): a decoder that
+        # fails with that kind on some text (bytes(None), an index on a short payload) then makes parsing raise
+        for t in sym.enclosing_tries(f.node, e.node):
+            for h in t.handlers:
+                hn = {norm(x) for x in (h.type.elts if isinstance(h.type, ast.Tuple) else [h.type])} if h.type is not None else {"BaseException"}
+                reraises = any(isinstance(x, ast.Raise) for b_ in h.body for x in ast.walk(b_))
+                if reraises:
+                    ctx.bad("cache-swallows-every-exception:reraised", ctx.where(f, h), "parseable_str.cache hands %s back to the caller (a handler in front of the catch-all re-raises): the decoders it wraps fail with these on malformed text "
+                            "(bytes(None), unpacking, indexing), so text parsing raises instead of answering None" % sorted(hn), sample={"reraised": sorted(hn)})
+                if hn & {"Exception", "BaseException"}:
+                    break
         pre = [x for x in w.effects if x.kind == "setitem" and norm(x.target) == "self._cache" and norm(x.key) == keyp and isinstance(x.value, ast.Constant) and x.value.value is None]
         ok = bool(pre) and w.effects.index(pre[0]) < w.effects.index(e) and sym.entails(e.reach, pre[0].reach)
         ctx.check(ok, "cache-none-first", ctx.where(f), "parseable_str.cache does not record None before running the decoder")
